@@ -76,7 +76,7 @@ static void check_partition(const unsigned char *s, size_t n, int flags, const s
 	struct json_tokener *tok = json_tokener_new();
 	size_t prev = 0; int j;
 	json_tokener_set_flags(tok, flags);
-	st->parts++;
+	st->parts++; vf_progress++;
 	for (j = 0; j < nc; j++) {
 		size_t len = cuts[j] - prev;
 		char *buf = (char *)malloc(len ? len : 1);
@@ -333,6 +333,7 @@ static int flush_each;
 int main(int argc, char **argv)
 {
 	flush_each = getenv("VF_FLUSH") != NULL;
+	vf_watchdog_init();
 	char *line = NULL; size_t cap = 0; ssize_t k; FILE *in = stdin;
 	if (argc > 1) { in = fopen(argv[1], "r"); if (!in) { perror(argv[1]); return 3; } }
 	if (argc > 2) { if (!freopen(argv[2], "w", stdout)) { perror(argv[2]); return 3; } }
@@ -341,6 +342,7 @@ int main(int argc, char **argv)
 		if (!nt) continue;
 		if (!strcmp(tokv[0], "CASE")) { base_live = vf_live_blocks; n_tri_viol = 0; ob_printf(&out, "C %s\n", nt > 1 ? tokv[1] : "?"); flush_out(); continue; }
 		if (!strcmp(tokv[0], "END")) { ob_printf(&out, "E live=%ld bad=%ld\n", vf_live_blocks - base_live, vf_bad_frees); flush_out(); continue; }
+		vf_progress++;
 		if (!strcmp(tokv[0], "X")) cmd_split(nt, tokv);
 		else if (!strcmp(tokv[0], "T")) cmd_stream(nt, tokv);
 		else if (!strcmp(tokv[0], "R")) cmd_reset(nt, tokv);
